@@ -54,3 +54,11 @@ func joinU64(xs []uint64) string {
 	}
 	return strings.Join(ss, ",")
 }
+
+// scribble overwrites a buffer the harness handed to the code under test: a value that was kept by
+// reference instead of being copied shows up as 0x58 bytes in what is stored or sent later.
+func scribble(b []byte) {
+	for i := range b {
+		b[i] = 0x58
+	}
+}
